@@ -93,6 +93,7 @@ GRID = {
 FINE = {
  "Normal": [[4002, 1, 1024]],
  "Gamma": [[1536, 1, 1024], [512, 2, 1024]],
+ "Beta": [[40, 40, 1024], [50, 30, 1024]],                      # both shapes tiny (0.039 / 0.049, 0.029): the bimodal almost-Bernoulli corner
  "Pareto": [[1536, 1, 1024]],
  "Gumbel": [[100, 1, 1024]],
  "Exponential": [[1, 1024], [3, 1024]],
